@@ -26,9 +26,9 @@ Definition d_meta (d : data) : meta := dmap (dpair dZ d_cell) d.
 (* fnum: (0 z) | (1) nan | (2) +inf | (3) -inf *)
 Definition d_fnum (d : data) : fnum :=
   match dZ (dnth 0 d) with 0 => Fin (dZ (dnth 1 d)) | 1 => NaN | 2 => PInf | _ => NInf end.
-(* robj: (0 fnum) | (1 s) | (2 (z ...)) *)
+(* robj: (0 fnum) | (1 s) | (2 (z ...)) | (3) a tuple with a non-finite member *)
 Definition d_robj (d : data) : robj :=
-  match dZ (dnth 0 d) with 0 => ONum (d_fnum (dnth 1 d)) | 1 => OStr (dZ (dnth 1 d)) | _ => OTup (dmap dZ (dnth 1 d)) end.
+  match dZ (dnth 0 d) with 0 => ONum (d_fnum (dnth 1 d)) | 1 => OStr (dZ (dnth 1 d)) | 2 => OTup (dmap dZ (dnth 1 d)) | _ => OBad end.
 (* rplain: (0 robj) | (1 robj (meta)?) *)
 Definition d_rplain (d : data) : rplain :=
   match dZ (dnth 0 d) with 0 => PObj (d_robj (dnth 1 d)) | _ => PDict (d_robj (dnth 1 d)) (dopt d_meta (dnth 2 d)) end.
